@@ -67,18 +67,25 @@ fn deviate<G: CurveTag>(ch: &mut Choices, prog: &Program, commitments: &[G]) -> 
                 return na("different-commitment");
             }
             let j = ch.below(m);
-            let how = ch.below(4);
+            let how = ch.below(8);
             let new: G = match how {
                 0 => (c[j].into_group() + pc.B.into_group()).into_affine(),
                 1 => (c[j].into_group() + pc.B_blinding.into_group()).into_affine(),
                 2 => rand_point::<G>(ch.u16() as u64),
-                _ => c[(j + 1) % m],
+                3 => c[(j + 1) % m],
+                4 => (-c[j].into_group()).into_affine(),
+                5 => G::same_x_other_y(&c[j]).unwrap_or(c[j]),
+                6 => (c[j].into_group() + c[j].into_group()).into_affine(),
+                _ => match crate::props::c13::small_order_point::<G>() {
+                    Some(t) => (c[j].into_group() + t.into_group()).into_affine(),
+                    None => (c[j].into_group() - pc.B.into_group()).into_affine(),
+                },
             };
             if new == c[j] {
                 return na("different-commitment");
             }
             c[j] = new;
-            Deviation { prog: p, commitments: c, pc: None, kind: format!("different-commitment:{}", ["V+B", "V+B_blinding", "random", "another V"][how]), expect: Expect::Context }
+            Deviation { prog: p, commitments: c, pc: None, kind: format!("different-commitment:{}", ["V+B", "V+B_blinding", "random", "another V", "-V", "same x other y", "2V", "V+T / V-B"][how]), expect: Expect::Context }
         }
         // an extra commitment
         1 => {
